@@ -221,3 +221,671 @@ def query3(ctx) -> List[Ob]:
     else:
         out.append(unresolved("QUERY-3", m.qualname, key, where, "expansion step not recognised"))
     return out
+
+
+# ------------------------------------------------------------------ QUERY-4
+
+
+def _fn(ctx, name):
+    f = ctx.prog.find_function(name)
+    if f is None:
+        raise AnalysisError(f"{name} not found")
+    return f
+
+
+def _single_def_value(ctx, fn, name_node):
+    ds = [d for d in ctx.cfg(fn).reaching_defs(name_node) if d.stmt is not None]
+    if len(ds) == 1 and isinstance(ds[0].stmt, (ast.Assign, ast.AnnAssign)) and ds[0].stmt.value is not None:
+        return ds[0].stmt.value
+    return None
+
+
+@rule("QUERY-4", 3, "a branch arm is empty exactly when it is reachable from some other successor of the branching block (quantified over all of them); otherwise its region is the set of blocks dominated by the arm and not by the join")
+def query4(ctx) -> List[Ob]:
+    out: List[Ob] = []
+    fn = _fn(ctx, "find_branch_regions")
+    params = [p.arg for p in fn.params]
+    where = ctx.where(fn)
+    outer = None
+    for lp in _loops(fn.node):
+        it = lp.iter
+        if isinstance(it, ast.Call) and isinstance(it.func, ast.Name) and it.func.id == "enumerate" and it.args:
+            it = it.args[0]
+        src = it
+        if isinstance(it, ast.Name):
+            src = _single_def_value(ctx, fn, it) or it
+        if isinstance(src, ast.Attribute) and src.attr in ("jump_targets", "_jump_targets") and not any(isinstance(a, ast.For) for a in A.ancestors(lp) if a is not fn.node and any(x is fn.node for x in A.ancestors(a))):
+            outer = (lp, it, src)
+            break
+    key = "arms are the forward successors of the branching block"
+    if outer is None:
+        out.append(unresolved("QUERY-4", fn.qualname, key, where, "find_branch_regions is not written in the recognised form (loop over the successors of the branching block)"))
+        return out
+    lp, it, src = outer
+    arm = A.unparse(lp.target.elts[-1] if isinstance(lp.target, ast.Tuple) else lp.target)
+    if src.attr == "_jump_targets":
+        out.append(bad("QUERY-4", fn.qualname, key, ctx.where(fn, lp), "the arms are taken from the raw successor list: a declared back edge becomes a branch arm"))
+    else:
+        out.append(ok("QUERY-4", fn.qualname, key, ctx.where(fn, lp), A.unparse(src), nontrivial=False))
+    # the emptiness test
+    key = "emptiness test quantifies over every other successor"
+    calls = [c for c in ast.walk(lp) if isinstance(c, ast.Call) and isinstance(c.func, ast.Attribute) and c.func.attr == "is_reachable_dfs" and len(c.args) == 2]
+    if not calls:
+        out.append(unresolved("QUERY-4", fn.qualname, key, ctx.where(fn, lp), "no reachability test between arms found"))
+    for c in calls:
+        x, y = c.args
+        wherec = ctx.where(fn, c)
+        if A.unparse(y) != arm:
+            out.append(bad("QUERY-4", fn.qualname, key, wherec, f"the test asks whether {A.unparse(y)} is reachable from {A.unparse(x)}: an arm is empty when *it* ({arm}) is reachable from another successor"))
+            continue
+        # x must range over the same successor sequence
+        dom = None
+        if isinstance(x, ast.Name):
+            for a in A.ancestors(c):
+                if isinstance(a, ast.For) and a is not lp and x.id in A.names_in(a.target):
+                    dom = a.iter
+                    break
+                if isinstance(a, (ast.GeneratorExp, ast.ListComp, ast.SetComp)):
+                    for g in a.generators:
+                        if x.id in A.names_in(g.target):
+                            dom = g.iter
+                    if dom is not None:
+                        break
+                if a is lp:
+                    break
+        if dom is None:
+            out.append(bad("QUERY-4", fn.qualname, key, wherec, f"the arm is compared with the single block {A.unparse(x)[:40]}, not with every other successor: with three or more successors an arm that another one runs into is given a region of its own"))
+            continue
+        if A.unparse(dom) != A.unparse(it):
+            out.append(bad("QUERY-4", fn.qualname, key, wherec, f"the other successors range over {A.unparse(dom)[:40]}, not over the successor list {A.unparse(it)[:40]}"))
+            continue
+        # the comparison excludes the arm itself
+        conj = None
+        for a in A.ancestors(c):
+            if isinstance(a, ast.BoolOp) and isinstance(a.op, ast.And):
+                conj = a
+                break
+            if isinstance(a, (ast.If, ast.comprehension, ast.GeneratorExp)):
+                break
+        texts = {A.unparse(v) for v in conj.values} if conj is not None else set()
+        # also an `if` filter of the comprehension
+        for a in A.ancestors(c):
+            if isinstance(a, (ast.GeneratorExp, ast.ListComp, ast.SetComp)):
+                for g in a.generators:
+                    texts |= {A.unparse(i) for i in g.ifs}
+        if not ({f"{x.id} != {arm}", f"{arm} != {x.id}", f"{x.id} is not {arm}"} & texts):
+            out.append(bad("QUERY-4", fn.qualname, key, wherec, f"the arm itself is not excluded ('{x.id} != {arm}'): an arm inside a cycle is reachable from itself and is wrongly treated as empty"))
+            continue
+        out.append(ok("QUERY-4", fn.qualname, key, wherec, f"is_reachable_dfs({x.id}, {arm}) for every {x.id} != {arm} in {A.unparse(it)[:30]}"))
+        # one record per arm
+        key2 = "one record per arm: placeholder or region"
+        appends = [a for a in ast.walk(lp) if isinstance(a, ast.Call) and isinstance(a.func, ast.Attribute) and a.func.attr == "append" and a.args]
+        res_names = {A.unparse(a.func.value) for a in appends}
+        nones = [a for a in appends if isinstance(a.args[0], ast.Constant) and a.args[0].value is None]
+        regs = [a for a in appends if isinstance(a.args[0], ast.Tuple) and A.unparse(a.args[0].elts[0]) == arm]
+        shape_ok = False
+        inner_for = next((a for a in A.ancestors(c) if isinstance(a, ast.For) and a is not lp), None)
+        if len(nones) == 1 and len(regs) == 1 and len(res_names) == 1:
+            n_if = next((a for a in A.ancestors(nones[0]) if isinstance(a, ast.If)), None)
+            if inner_for is not None and n_if is not None and any(x_ is inner_for for x_ in A.ancestors(n_if)):
+                # for ... if cond: append(None); break  else: append(region)
+                stmts = n_if.body
+                st = next((s for s in stmts if isinstance(s, ast.Expr) and s.value is nones[0]), None)
+                brk = st is not None and stmts.index(st) + 1 < len(stmts) and isinstance(stmts[stmts.index(st) + 1], ast.Break)
+                in_else = any(isinstance(s, ast.Expr) and s.value is regs[0] for s in inner_for.orelse)
+                shape_ok = bool(brk and in_else and any(c is z for z in ast.walk(n_if.test)))
+            elif n_if is not None and any(c is z for z in ast.walk(n_if.test)):
+                # if any(...): append(None) else: append(region)
+                shape_ok = any(isinstance(s, ast.Expr) and s.value is regs[0] for s in n_if.orelse) and isinstance(n_if.test, ast.Call) and isinstance(n_if.test.func, ast.Name) and n_if.test.func.id == "any"
+        if shape_ok:
+            out.append(ok("QUERY-4", fn.qualname, key2, ctx.where(fn, nones[0]), "None once when some other successor reaches the arm (search stops), else (arm, members) once"))
+        else:
+            out.append(bad("QUERY-4", fn.qualname, key2, ctx.where(fn, lp), "the result does not get exactly one entry per successor (a placeholder when the test succeeds for some other successor, the region otherwise): the list no longer lines up with the successor positions"))
+    # membership of the region
+    key = "region = dominated by the arm and not by the join"
+    end = params[2] if len(params) >= 3 else "end"
+    mem = None
+    for l2 in [n for n in ast.walk(lp) if isinstance(n, ast.For) and n is not lp]:
+        if isinstance(l2.iter, ast.Call) and isinstance(l2.iter.func, ast.Attribute) and l2.iter.func.attr == "items" and isinstance(l2.target, ast.Tuple) and len(l2.target.elts) == 2:
+            dsrc = l2.iter.func.value
+            dval = _single_def_value(ctx, fn, dsrc) if isinstance(dsrc, ast.Name) else dsrc
+            if isinstance(dval, ast.Call) and (A.dotted(dval.func) or "").endswith("_doms"):
+                mem = (l2, dval)
+    if mem is None:
+        out.append(unresolved("QUERY-4", fn.qualname, key, where, "membership loop over the dominator sets not found"))
+    else:
+        l2, dval = mem
+        k, kd = [A.unparse(e) for e in l2.target.elts]
+        callee = A.dotted(dval.func) or ""
+        ifs = [n for n in l2.body if isinstance(n, ast.If)]
+        conj = set()
+        if ifs and isinstance(ifs[0].test, ast.BoolOp) and isinstance(ifs[0].test.op, ast.And):
+            conj = {A.unparse(v) for v in ifs[0].test.values}
+        adds = [a for a in method_calls(l2, "add") if a.args and A.unparse(a.args[0]) == k]
+        if callee.endswith("_post_doms"):
+            out.append(bad("QUERY-4", fn.qualname, key, ctx.where(fn, l2), "membership is decided on post-dominators, not dominators"))
+        elif conj == {f"{arm} in {kd}", f"{end} not in {kd}"} and adds and not ifs[0].orelse:
+            out.append(ok("QUERY-4", fn.qualname, key, ctx.where(fn, l2), f"{k} is a member iff {arm} in dom({k}) and {end} not in dom({k})"))
+        else:
+            out.append(bad("QUERY-4", fn.qualname, key, ctx.where(fn, l2), f"membership test is {sorted(conj) or 'not a conjunction'}: expected '{arm} in {kd}' and '{end} not in {kd}'"))
+    return out
+
+
+# ------------------------------------------------------------------ QUERY-5
+
+_ATOMS = ("J", "G", "K")
+
+
+def _set_fn(e: ast.AST, jt_texts, graph_texts, kname):
+    """a set expression as a predicate over the atoms (x in forward targets, x in graph, x == k); None when not understood; 'raw' when the raw successor list is used"""
+    t = A.unparse(e)
+    if t in jt_texts:
+        return lambda J, G, K: J
+    if any(t == r for r in [j.replace(".jump_targets", "._jump_targets") for j in jt_texts]):
+        return "raw"
+    if t in graph_texts:
+        return lambda J, G, K: G
+    if isinstance(e, ast.Set) and len(e.elts) == 1 and A.unparse(e.elts[0]) == kname:
+        return lambda J, G, K: K
+    if isinstance(e, ast.Call) and isinstance(e.func, ast.Name) and e.func.id in ("set", "frozenset", "list", "tuple", "sorted") and len(e.args) == 1:
+        return _set_fn(e.args[0], jt_texts, graph_texts, kname)
+    if isinstance(e, ast.Call) and isinstance(e.func, ast.Attribute) and e.func.attr in ("intersection", "union", "difference") and len(e.args) == 1:
+        a, b = _set_fn(e.func.value, jt_texts, graph_texts, kname), _set_fn(e.args[0], jt_texts, graph_texts, kname)
+        if a == "raw" or b == "raw":
+            return "raw"
+        if a is None or b is None:
+            return None
+        op = e.func.attr
+        return {"intersection": lambda J, G, K: a(J, G, K) and b(J, G, K), "union": lambda J, G, K: a(J, G, K) or b(J, G, K), "difference": lambda J, G, K: a(J, G, K) and not b(J, G, K)}[op]
+    if isinstance(e, ast.BinOp) and isinstance(e.op, (ast.BitAnd, ast.BitOr, ast.Sub)):
+        a, b = _set_fn(e.left, jt_texts, graph_texts, kname), _set_fn(e.right, jt_texts, graph_texts, kname)
+        if a == "raw" or b == "raw":
+            return "raw"
+        if a is None or b is None:
+            return None
+        if isinstance(e.op, ast.BitAnd):
+            return lambda J, G, K: a(J, G, K) and b(J, G, K)
+        if isinstance(e.op, ast.BitOr):
+            return lambda J, G, K: a(J, G, K) or b(J, G, K)
+        return lambda J, G, K: a(J, G, K) and not b(J, G, K)
+    if isinstance(e, (ast.SetComp, ast.ListComp, ast.GeneratorExp)) and len(e.generators) == 1 and isinstance(e.generators[0].target, ast.Name) and A.unparse(e.elt) == e.generators[0].target.id:
+        g = e.generators[0]
+        base = _set_fn(g.iter, jt_texts, graph_texts, kname)
+        if base in (None, "raw"):
+            return base
+        preds = []
+        for cond in g.ifs:
+            ct = A.unparse(cond)
+            v = g.target.id
+            hit = None
+            for gt in graph_texts:
+                if ct == f"{v} in {gt}":
+                    hit = lambda J, G, K: G
+                if ct == f"{v} not in {gt}":
+                    hit = lambda J, G, K: not G
+            if ct in (f"{v} != {kname}",):
+                hit = lambda J, G, K: not K
+            if hit is None:
+                return None
+            preds.append(hit)
+        return lambda J, G, K: base(J, G, K) and all(p(J, G, K) for p in preds)
+    return None
+
+
+@rule("QUERY-5", 6, "the dominator computations are fed the graph's own relations: forward targets inside the graph, mutually inverse predecessor / successor tables in the orientation of the function, all nodes, and as seeds exactly the nodes without a predecessor in that orientation")
+def query5(ctx) -> List[Ob]:
+    out: List[Ob] = []
+    for fname, reverse in (("_doms", False), ("_post_doms", True)):
+        fn = _fn(ctx, fname)
+        where = ctx.where(fn)
+        gparam = fn.params[0].arg
+        gtexts = {f"{gparam}.graph", f"{gparam}.graph.keys()", gparam, f"{gparam}.graph.items()"}
+        calls = [c for c in A.walk_no_nested(fn.node) if isinstance(c, ast.Call) and (A.dotted(c.func) or "").endswith("_find_dominators_internal")]
+        if len(calls) != 1 or len(calls[0].args) != 4:
+            out.append(unresolved("QUERY-5", fn.qualname, "fix-point call", where, "expected one call _find_dominators_internal(entries, nodes, preds, succs)"))
+            continue
+        E, N, P, S = [A.unparse(a) for a in calls[0].args]
+        # ---- nodes
+        key = "all nodes"
+        if _strip_order(calls[0].args[1]) in gtexts - {f"{gparam}.graph.items()"}:
+            out.append(ok("QUERY-5", fn.qualname, key, ctx.where(fn, calls[0]), N, nontrivial=False))
+        else:
+            out.append(bad("QUERY-5", fn.qualname, key, ctx.where(fn, calls[0]), f"the node list handed to the fix-point is {N[:50]}, not every block of the graph"))
+        # ---- edge tables
+        key = "edge tables"
+        edge = None
+        for lp in _loops(fn.node):
+            if _strip_order(lp.iter) != f"{gparam}.graph.items()" or not (isinstance(lp.target, ast.Tuple) and len(lp.target.elts) == 2):
+                continue
+            srcv, nodev = [A.unparse(e) for e in lp.target.elts]
+            for l2 in [n for n in lp.body if isinstance(n, ast.For)]:
+                if isinstance(l2.iter, ast.Attribute) and A.unparse(l2.iter.value) == nodev and l2.iter.attr in ("jump_targets", "_jump_targets"):
+                    edge = (lp, l2, srcv, A.unparse(l2.target), l2.iter.attr)
+        if edge is None:
+            out.append(unresolved("QUERY-5", fn.qualname, key, where, "edge loop 'for src, node in graph.items(): for dst in node.jump_targets' not found"))
+        else:
+            lp, l2, srcv, dstv, attr = edge
+            adds = []
+            guarded = True
+            for c in method_calls(l2, "add"):
+                recv = c.func.value
+                if isinstance(recv, ast.Subscript) and c.args:
+                    adds.append((A.unparse(recv.value), A.unparse(recv.slice), A.unparse(c.args[0])))
+                    gs = [a for a in A.ancestors(c) if isinstance(a, ast.If) and any(z is l2 for z in A.ancestors(a))]
+                    if not any(A.unparse(g.test) in {f"{dstv} in {t}" for t in gtexts} and any(c is z for s_ in g.body for z in ast.walk(s_)) for g in gs) or len(gs) != 1:
+                        guarded = False
+            fwd_p = (P, dstv, srcv) in adds and (S, srcv, dstv) in adds
+            rev_p = (P, srcv, dstv) in adds and (S, dstv, srcv) in adds
+            probs = []
+            if attr == "_jump_targets":
+                probs.append("the raw successor list is used: declared back edges take part in the dominator computation")
+            if len(adds) != 2 or not (fwd_p or rev_p):
+                probs.append(f"the two tables are not mutually inverse records of the same arc ({adds})")
+            elif reverse and not rev_p:
+                probs.append("the post-dominator tables are in forward orientation")
+            elif not reverse and not fwd_p:
+                probs.append("the dominator tables are in reverse orientation")
+            if not guarded:
+                probs.append(f"an arc is recorded without the guard '{dstv} in {gparam}.graph' (or under another condition): arcs that leave the sub-graph enter the tables, or arcs inside it are dropped")
+            if [b for b in A.walk_no_nested(lp) if isinstance(b, (ast.Break, ast.Continue, ast.Return))]:
+                probs.append("the edge scan can stop early")
+            if probs:
+                out.append(bad("QUERY-5", fn.qualname, key, ctx.where(fn, lp), "; ".join(probs)))
+            else:
+                out.append(ok("QUERY-5", fn.qualname, key, ctx.where(fn, lp), f"{'reverse' if reverse else 'forward'} orientation, targets inside the graph only"))
+        # ---- seeds
+        key = "seeds = nodes without predecessor in this orientation"
+        found = False
+        for lp in _loops(fn.node):
+            if _strip_order(lp.iter) not in gtexts:
+                continue
+            tv = [A.unparse(e) for e in lp.target.elts] if isinstance(lp.target, ast.Tuple) else [A.unparse(lp.target)]
+            k = tv[0]
+            eadds = [c for c in method_calls(lp, "add") if A.unparse(c.func.value) == E and c.args and A.unparse(c.args[0]) == k]
+            if not eadds:
+                continue
+            found = True
+            c = eadds[0]
+            gs = [a for a in A.ancestors(c) if isinstance(a, ast.If) and any(z is lp for z in A.ancestors(a))]
+            if len(gs) != 1 or not (isinstance(gs[0].test, ast.UnaryOp) and isinstance(gs[0].test.op, ast.Not)) or gs[0].orelse and any(c is z for s_ in gs[0].orelse for z in ast.walk(s_)):
+                out.append(bad("QUERY-5", fn.qualname, key, ctx.where(fn, lp), f"a node becomes a seed under '{A.unparse(gs[0].test)[:50] if gs else 'no condition'}', not exactly when it has no predecessor"))
+                break
+            subject = gs[0].test.operand
+            if A.unparse(subject) == f"{P}[{k}]":
+                # table form: valid only after the edge loop has filled the table
+                if edge is not None and A.lineno(lp) > A.lineno(edge[0]):
+                    out.append(ok("QUERY-5", fn.qualname, key, ctx.where(fn, lp), f"not {P}[{k}] after the tables are complete"))
+                else:
+                    out.append(bad("QUERY-5", fn.qualname, key, ctx.where(fn, lp), "the seeds are read from the predecessor table before the table is filled: every node becomes a seed"))
+                break
+            sexpr = subject
+            if isinstance(subject, ast.Name):
+                sexpr = None
+                for s_ in lp.body:
+                    if isinstance(s_, (ast.Assign, ast.AnnAssign)) and s_.value is not None and A.unparse(s_.targets[0] if isinstance(s_, ast.Assign) else s_.target) == subject.id:
+                        sexpr = s_.value
+            nodev = tv[1] if len(tv) > 1 else f"{gparam}.graph[{k}]"
+            jt_texts = {f"{nodev}.jump_targets", f"{gparam}.graph[{k}].jump_targets", f"{gparam}[{k}].jump_targets"}
+            f = _set_fn(sexpr, jt_texts, gtexts, k) if sexpr is not None else None
+            if f == "raw":
+                out.append(bad("QUERY-5", fn.qualname, key, ctx.where(fn, lp), "the seeds are decided on the raw successor list: a latch whose only inside successor is its declared back edge is not an exit of the sub-graph any more"))
+                break
+            if f is None or not reverse:
+                out.append(unresolved("QUERY-5", fn.qualname, key, ctx.where(fn, lp), f"seed condition '{A.unparse(gs[0].test)[:60]}' not understood"))
+                break
+            diff = None
+            for J in (False, True):
+                for G in (False, True):
+                    for K in (False, True):
+                        if K and not G:
+                            continue
+                        if bool(f(J, G, K)) != (J and G):
+                            diff = (J, G, K)
+            if diff is None:
+                out.append(ok("QUERY-5", fn.qualname, key, ctx.where(fn, lp), f"{A.unparse(sexpr)[:50]} == forward targets inside the graph (truth table over 6 cases)"))
+            else:
+                J, G, K = diff
+                what = "its own name (a self loop)" if K else ("a block of the graph" if G else "a block outside the graph")
+                out.append(bad("QUERY-5", fn.qualname, key, ctx.where(fn, lp), f"'{A.unparse(sexpr)[:50]}' is not 'the forward targets inside the graph': it differs for a target that is {what}{'' if J else ' and not a successor'}; such a node {'wrongly becomes' if (J and G) else 'is wrongly not'} an exit seed"))
+            break
+        if not found:
+            out.append(unresolved("QUERY-5", fn.qualname, key, where, f"no loop adding to {E} found"))
+    return out
+
+
+# ------------------------------------------------------------------ QUERY-6
+
+
+@rule("QUERY-6", 8, "the vendored SCC routine keeps the invariants of the iterative Tarjan/Nuutila algorithm (DFS stack is a tree path, preorder assigned once and increasing, low-links over unfinished successors only, a root closes its component), and is given the forward successors inside the graph")
+def query6(ctx) -> List[Ob]:
+    out: List[Ob] = []
+    fn = _fn(ctx, "scc")
+    where = ctx.where(fn)
+    Gp = fn.params[0].arg
+
+    def shape(msg):
+        out.append(unresolved("QUERY-6", fn.qualname, "algorithm shape", where, msg))
+        return out
+
+    src_loops = [lp for lp in fn.node.body if isinstance(lp, ast.For) and A.unparse(lp.iter) == Gp]
+    if len(src_loops) != 1:
+        return shape("no 'for source in G' loop: not the recognised iterative SCC algorithm")
+    sl = src_loops[0]
+    source = A.unparse(sl.target)
+    whiles = [w for w in ast.walk(sl) if isinstance(w, ast.While) and isinstance(w.test, ast.Name)]
+    if len(whiles) != 1:
+        return shape("no 'while <stack>' loop inside the source loop")
+    wl = whiles[0]
+    Q = wl.test.id
+    tops = [s for s in wl.body if isinstance(s, ast.Assign) and A.unparse(s.value) == f"{Q}[-1]"]
+    if not tops:
+        return shape(f"the loop does not read the top of {Q}")
+    v = A.unparse(tops[0].targets[0])
+    succ_loops = [lp for lp in wl.body if isinstance(lp, ast.For) and A.unparse(lp.iter) == f"{Gp}[{v}]"]
+    done_ifs = [s for s in wl.body if isinstance(s, ast.If) and isinstance(s.test, ast.Name)]
+    if len(succ_loops) != 1 or len(done_ifs) != 1:
+        return shape("expected one successor loop and one 'if done' block per visit")
+    el, di = succ_loops[0], done_ifs[0]
+    done = di.test.id
+    w = A.unparse(el.target)
+    # names of the tables
+    pre_ifs = [s for s in wl.body if isinstance(s, ast.If) and isinstance(s.test, ast.Compare) and isinstance(s.test.ops[0], ast.NotIn) and A.unparse(s.test.left) == v]
+    if len(pre_ifs) != 1:
+        return shape("no 'if v not in preorder' numbering step")
+    PRE = A.unparse(pre_ifs[0].test.comparators[0])
+    # 1 every vertex is a source unless already in a finished component
+    key = "every unfinished vertex starts a search"
+    g = [s for s in sl.body if isinstance(s, ast.If)]
+    if len(sl.body) == 1 and g and isinstance(g[0].test, ast.Compare) and isinstance(g[0].test.ops[0], ast.NotIn) and A.unparse(g[0].test.left) == source and not g[0].orelse:
+        FOUND = A.unparse(g[0].test.comparators[0])
+        seeds = [s for s in g[0].body if isinstance(s, ast.Assign) and A.unparse(s.targets[0]) == Q]
+        if seeds and A.unparse(seeds[0].value) == f"[{source}]":
+            out.append(ok("QUERY-6", fn.qualname, key, ctx.where(fn, sl), f"for {source} in {Gp}: if {source} not in {FOUND}: {Q} = [{source}]"))
+        else:
+            out.append(bad("QUERY-6", fn.qualname, key, ctx.where(fn, sl), f"the DFS stack is not started as [{source}]"))
+    else:
+        return shape("source loop body is not 'if source not in <found>: ...'")
+    # 2 preorder once, increasing
+    key = "preorder number assigned once, strictly increasing"
+    body = pre_ifs[0].body
+    cnt = None
+    good = False
+    if len(body) == 2 and isinstance(body[0], (ast.Assign, ast.AugAssign)) and isinstance(body[1], ast.Assign):
+        cnt = A.unparse(body[0].targets[0] if isinstance(body[0], ast.Assign) else body[0].target)
+        inc = A.unparse(body[0].value) in (f"{cnt} + 1", f"1 + {cnt}") if isinstance(body[0], ast.Assign) else (isinstance(body[0].op, ast.Add) and A.unparse(body[0].value) == "1")
+        good = inc and A.unparse(body[1].targets[0]) == f"{PRE}[{v}]" and A.unparse(body[1].value) == cnt
+    other_pre_writes = [s for s in ast.walk(fn.node) if isinstance(s, ast.Assign) and any(A.unparse(t).startswith(PRE + "[") for t in s.targets) and s not in body]
+    cnt_writes = [s for s in ast.walk(fn.node) if isinstance(s, (ast.Assign, ast.AugAssign)) and cnt is not None and A.unparse(s.targets[0] if isinstance(s, ast.Assign) else s.target) == cnt and s not in body]
+    cnt_inits_ok = all(isinstance(s, ast.Assign) and s in fn.node.body for s in cnt_writes)
+    if good and not other_pre_writes and cnt_inits_ok and not pre_ifs[0].orelse:
+        out.append(ok("QUERY-6", fn.qualname, key, ctx.where(fn, pre_ifs[0]), f"if {v} not in {PRE}: {cnt} += 1; {PRE}[{v}] = {cnt}; the counter is never reset inside the search"))
+    else:
+        out.append(bad("QUERY-6", fn.qualname, key, ctx.where(fn, pre_ifs[0]), "the numbering step is not 'first visit: counter + 1, stored once' (or the counter / the table is written elsewhere): root detection compares preorder numbers"))
+    # 3 one child per visit
+    key = "DFS stack is a tree path: one unvisited child is pushed, then the scan stops"
+    pushes = [c for c in ast.walk(el) if isinstance(c, ast.Call) and isinstance(c.func, ast.Attribute) and c.func.attr in ("append", "extend") and A.unparse(c.func.value) == Q]
+    okp = False
+    why = "no push of an unvisited successor found"
+    if len(pushes) == 1 and pushes[0].func.attr == "append" and A.unparse(pushes[0].args[0]) == w:
+        pif = next((a for a in A.ancestors(pushes[0]) if isinstance(a, ast.If)), None)
+        if pif is not None and A.unparse(pif.test) == f"{w} not in {PRE}" and pif in el.body:
+            kinds = [type(s).__name__ for s in pif.body]
+            sets_false = any(isinstance(s, ast.Assign) and A.unparse(s.targets[0]) == done and isinstance(s.value, ast.Constant) and s.value.value is False for s in pif.body)
+            if isinstance(pif.body[-1], ast.Break) and sets_false:
+                okp = True
+            elif not isinstance(pif.body[-1], ast.Break):
+                why = "after pushing an unvisited successor the scan of the successors goes on: several children are pushed at once, the stack is no longer a path of the DFS tree and low-links are computed across siblings"
+            else:
+                why = f"the push does not clear '{done}': the vertex is finished while a child is still unvisited"
+        else:
+            why = f"the push is not guarded by '{w} not in {PRE}'"
+    init_done = [s for s in wl.body if isinstance(s, ast.Assign) and A.unparse(s.targets[0]) == done and isinstance(s.value, ast.Constant) and s.value.value is True]
+    if okp and init_done and wl.body.index(init_done[0]) < wl.body.index(el):
+        out.append(ok("QUERY-6", fn.qualname, key, ctx.where(fn, el), f"if {w} not in {PRE}: {Q}.append({w}); {done} = False; break"))
+    else:
+        out.append(bad("QUERY-6", fn.qualname, key, ctx.where(fn, el), why if not okp else f"'{done} = True' is not set before the successor scan"))
+    # 4 pop only when done
+    key = "a vertex leaves the stack only when all successors are visited"
+    pops = [c for c in ast.walk(wl) if isinstance(c, ast.Call) and isinstance(c.func, ast.Attribute) and c.func.attr == "pop" and A.unparse(c.func.value) == Q]
+    if len(pops) == 1 and any(isinstance(s, ast.Expr) and s.value is pops[0] for s in di.body) and not di.orelse:
+        out.append(ok("QUERY-6", fn.qualname, key, ctx.where(fn, di), f"{Q}.pop() once, directly under 'if {done}'"))
+    else:
+        out.append(bad("QUERY-6", fn.qualname, key, ctx.where(fn, di), f"{Q}.pop() is not executed exactly once per finished vertex (directly under 'if {done}')"))
+    # 5 lowlink
+    key = "low-link over unfinished successors: low-link of later-numbered ones, preorder of earlier ones"
+    ll_init = [s for s in di.body if isinstance(s, ast.Assign) and A.unparse(s.value) == f"{PRE}[{v}]" and A.unparse(s.targets[0]).endswith(f"[{v}]")]
+    if not ll_init:
+        return shape("no low-link initialisation 'lowlink[v] = preorder[v]'")
+    LOW = A.unparse(ll_init[0].targets[0])[: -len(f"[{v}]")]
+    l2s = [lp for lp in di.body if isinstance(lp, ast.For) and A.unparse(lp.iter) == f"{Gp}[{v}]"]
+    okl = False
+    if len(l2s) == 1:
+        w2 = A.unparse(l2s[0].target)
+        b = l2s[0].body
+        if len(b) == 1 and isinstance(b[0], ast.If) and A.unparse(b[0].test) == f"{w2} not in {FOUND}" and not b[0].orelse and len(b[0].body) == 1 and isinstance(b[0].body[0], ast.If):
+            inner = b[0].body[0]
+
+            def is_min(st, a2):
+                if not (isinstance(st, ast.Assign) and A.unparse(st.targets[0]) == f"{LOW}[{v}]" and isinstance(st.value, ast.Call) and isinstance(st.value.func, ast.Name) and st.value.func.id == "min"):
+                    return False
+                args = st.value.args[0].elts if len(st.value.args) == 1 and isinstance(st.value.args[0], (ast.List, ast.Tuple)) else st.value.args
+                return {A.unparse(x) for x in args} == {f"{LOW}[{v}]", a2}
+
+            t = A.unparse(inner.test)
+            if t in (f"{PRE}[{w2}] > {PRE}[{v}]", f"{PRE}[{v}] < {PRE}[{w2}]") and len(inner.body) == 1 and len(inner.orelse) == 1:
+                okl = is_min(inner.body[0], f"{LOW}[{w2}]") and is_min(inner.orelse[0], f"{PRE}[{w2}]")
+    if okl and di.body.index(ll_init[0]) < di.body.index(l2s[0]):
+        out.append(ok("QUERY-6", fn.qualname, key, ctx.where(fn, l2s[0]), f"min with {LOW}[w] when {PRE}[w] > {PRE}[{v}], else with {PRE}[w]; successors in {FOUND} skipped"))
+    else:
+        out.append(bad("QUERY-6", fn.qualname, key, ctx.where(fn, di), "the low-link update is not the Nuutila rule (skip finished components; tree descendants contribute their low-link, earlier vertices their preorder number)"))
+    # 6 root closes its component
+    key = "a root closes its component; other vertices wait on the component stack"
+    roots = [s for s in di.body if isinstance(s, ast.If) and A.unparse(s.test) in (f"{LOW}[{v}] == {PRE}[{v}]", f"{PRE}[{v}] == {LOW}[{v}]")]
+    okr = False
+    why = "no root test 'lowlink[v] == preorder[v]'"
+    if len(roots) == 1:
+        r = roots[0]
+        comp = [s for s in r.body if isinstance(s, ast.Assign) and A.unparse(s.value) == f"{{{v}}}"]
+        ws = [s for s in r.body if isinstance(s, ast.While)]
+        ys = [s for s in r.body if isinstance(s, ast.Expr) and isinstance(s.value, ast.Yield)]
+        upd = [s for s in r.body if isinstance(s, ast.Expr) and isinstance(s.value, ast.Call) and A.unparse(s.value.func) == f"{FOUND}.update"]
+        els = [s for s in r.orelse if isinstance(s, ast.Expr) and isinstance(s.value, ast.Call) and isinstance(s.value.func, ast.Attribute) and s.value.func.attr == "append" and A.unparse(s.value.args[0]) == v]
+        if comp and len(ws) == 1 and ys and upd and len(els) == 1 and len(r.orelse) == 1:
+            C = A.unparse(comp[0].targets[0])
+            SQ = A.unparse(els[0].value.func.value)
+            wt = ws[0].test
+            conds = {A.unparse(x) for x in wt.values} if isinstance(wt, ast.BoolOp) and isinstance(wt.op, ast.And) else set()
+            popk = [s for s in ws[0].body if isinstance(s, ast.Assign) and A.unparse(s.value) == f"{SQ}.pop()"]
+            addk = popk and any(isinstance(s, ast.Expr) and A.unparse(s.value) == f"{C}.add({A.unparse(popk[0].targets[0])})" for s in ws[0].body)
+            cmp_ok = bool({f"{PRE}[{SQ}[-1]] > {PRE}[{v}]", f"{PRE}[{SQ}[-1]] >= {PRE}[{v}]", f"{PRE}[{v}] < {PRE}[{SQ}[-1]]"} & conds)
+            order = r.body.index(comp[0]) < r.body.index(ws[0]) < r.body.index(upd[0]) < r.body.index(ys[0])
+            if SQ in conds and cmp_ok and addk and order and A.unparse(upd[0].value.args[0]) == C and A.unparse(ys[0].value.value) == C and SQ != Q:
+                okr = True
+            else:
+                why = "the component is not 'v plus everything above it on the component stack with a larger preorder number', recorded as found and then yielded"
+        else:
+            why = "the root arm does not build, record and yield the component, or the non-root arm does not push v on the component stack"
+    if okr:
+        out.append(ok("QUERY-6", fn.qualname, key, ctx.where(fn, roots[0]), "root: {v} + later-numbered vertices of the component stack -> found, yielded; non-root: pushed on the component stack"))
+    else:
+        out.append(bad("QUERY-6", fn.qualname, key, ctx.where(fn, di), why))
+    if roots and not (di.body.index(roots[0]) > di.body.index(l2s[0]) if l2s else False):
+        out.append(bad("QUERY-6", fn.qualname, "root test after the low-link is final", ctx.where(fn, di), "the root test runs before the low-link of the vertex has been computed"))
+    # 7 the successor relation handed over
+    cs = ctx.prog.cls("SCFG").find_method("compute_scc")
+    key = "successor relation = forward targets inside the graph; vertices = all blocks"
+    if cs is None:
+        raise AnalysisError("SCFG.compute_scc not found")
+    wrap = [c for c in ctx.prog.all_classes() if c.parent_fn is cs]
+    if len(wrap) != 1 or "__getitem__" not in wrap[0].methods or "__iter__" not in wrap[0].methods:
+        out.append(unresolved("QUERY-6", cs.qualname, key, ctx.where(cs), "graph adapter class with __getitem__ / __iter__ not found in compute_scc"))
+    else:
+        gi, it = wrap[0].methods["__getitem__"], wrap[0].methods["__iter__"]
+        vx = [p.arg for p in gi.params if p.arg != "self"][0]
+        rets = [r for r in A.walk_no_nested(gi.node) if isinstance(r, ast.Return) and r.value is not None]
+        okg = False
+        whyg = "the adapter's __getitem__ is not a filter of the block's forward jump targets"
+        if len(rets) == 1:
+            val = rets[0].value
+            if isinstance(val, (ast.ListComp, ast.SetComp, ast.GeneratorExp)) and len(val.generators) == 1:
+                gen = val.generators[0]
+                base = gen.iter
+                if isinstance(base, ast.Name):
+                    base = _single_def_value(ctx, gi, base) or base
+                bt = A.unparse(base)
+                filt = {A.unparse(i) for i in gen.ifs}
+                tv = A.unparse(gen.target)
+                if bt == f"self.graph[{vx}]._jump_targets":
+                    whyg = "the raw successor list is handed to the SCC routine: declared back edges of enclosing loops make inner blocks mutually reachable again and the same loop is found for ever"
+                elif bt == f"self.graph[{vx}].jump_targets" and filt == {f"{tv} in self.graph"} and A.unparse(val.elt) == tv:
+                    okg = True
+                elif bt == f"self.graph[{vx}].jump_targets":
+                    whyg = f"successors are filtered by {sorted(filt)}, not by membership of the graph: targets outside the sub-graph reach the SCC routine (KeyError) or inside ones are dropped"
+        itr = [r for r in A.walk_no_nested(it.node) if isinstance(r, ast.Return) and r.value is not None]
+        okv = len(itr) == 1 and _strip_order(itr[0].value) in ("self.graph.keys()", "self.graph")
+        if okg and okv:
+            out.append(ok("QUERY-6", cs.qualname, key, ctx.where(cs), "G[v] = [k for k in graph[v].jump_targets if k in graph]; iter(G) = all keys"))
+        else:
+            out.append(bad("QUERY-6", cs.qualname, key, ctx.where(cs), whyg if not okg else "the adapter does not enumerate every block of the graph"))
+        rr = [r for r in A.walk_no_nested(cs.node) if isinstance(r, ast.Return) and r.value is not None]
+        key = "all components are returned"
+        if len(rr) == 1 and _strip_order(rr[0].value).startswith("scc(") :
+            out.append(ok("QUERY-6", cs.qualname, key, ctx.where(cs, rr[0]), A.unparse(rr[0].value)[:50], nontrivial=False))
+        else:
+            out.append(bad("QUERY-6", cs.qualname, key, ctx.where(cs), "compute_scc does not return every component the routine yields"))
+    return out
+
+
+# ------------------------------------------------------------------ QUERY-7
+
+
+@rule("QUERY-7", 5, "the dominator fix-point solves dom(n) = {n} | intersection of dom(p) over the predecessors p: seeds start as {e}, every other node starts at the full node set and is queued, an update re-queues the successors; immediate dominators are the strict dominators minus the strict dominators of each of them")
+def query7(ctx) -> List[Ob]:
+    out: List[Ob] = []
+    fn = _fn(ctx, "_find_dominators_internal")
+    E, N, P, S = [p.arg for p in fn.params][:4]
+    where = ctx.where(fn)
+    rets = [r for r in A.walk_no_nested(fn.node) if isinstance(r, ast.Return) and isinstance(r.value, ast.Name)]
+    if len(rets) != 1:
+        out.append(unresolved("QUERY-7", fn.qualname, "algorithm shape", where, "expected one 'return <table>'"))
+        return out
+    D = rets[0].value.id
+    # 1 seeds
+    key = "dom(e) = {e} for every seed"
+    good = False
+    for lp in _loops(fn.node):
+        if A.unparse(lp.iter) == E and len(lp.body) == 1 and isinstance(lp.body[0], ast.Assign):
+            e = A.unparse(lp.target)
+            good = A.unparse(lp.body[0].targets[0]) == f"{D}[{e}]" and A.unparse(lp.body[0].value) == f"{{{e}}}"
+            w1 = ctx.where(fn, lp)
+    if good:
+        out.append(ok("QUERY-7", fn.qualname, key, w1, f"for e in {E}: {D}[e] = {{e}}"))
+    else:
+        out.append(bad("QUERY-7", fn.qualname, key, where, "the seeds are not initialised to dominate only themselves"))
+    # 2 others
+    key = "every other node starts at the full node set and is queued"
+    good = False
+    W = None
+    for lp in _loops(fn.node):
+        if A.unparse(lp.iter) == N and len(lp.body) == 1 and isinstance(lp.body[0], ast.If):
+            n = A.unparse(lp.target)
+            i = lp.body[0]
+            if A.unparse(i.test) == f"{n} not in {E}" and not i.orelse:
+                init = [s for s in i.body if isinstance(s, ast.Assign) and A.unparse(s.targets[0]) == f"{D}[{n}]" and A.unparse(s.value) in (f"set({N})", f"{{*{N}}}")]
+                q = [s for s in i.body if isinstance(s, ast.Expr) and isinstance(s.value, ast.Call) and isinstance(s.value.func, ast.Attribute) and s.value.func.attr in ("append", "add") and A.unparse(s.value.args[0]) == n]
+                if init and q:
+                    good = True
+                    W = A.unparse(q[0].value.func.value)
+                    w2 = ctx.where(fn, lp)
+    if good:
+        out.append(ok("QUERY-7", fn.qualname, key, w2, f"{D}[n] = set({N}); {W}.append(n)"))
+    else:
+        out.append(bad("QUERY-7", fn.qualname, key, where, "non-seed nodes are not initialised to the full node set and queued: the iteration does not start from the top of the lattice (too few dominators) or misses nodes"))
+    # 3 the equation
+    wl = [w for w in A.walk_no_nested(fn.node) if isinstance(w, ast.While) and W is not None and A.unparse(w.test) == W]
+    key = "dom(n) = {n} | intersection over the predecessors"
+    if len(wl) != 1:
+        out.append(unresolved("QUERY-7", fn.qualname, key, where, "work-list loop not found"))
+        return out
+    w = wl[0]
+    pops = [s for s in w.body if isinstance(s, ast.Assign) and isinstance(s.value, ast.Call) and isinstance(s.value.func, ast.Attribute) and s.value.func.attr in ("pop", "popleft") and A.unparse(s.value.func.value) == W]
+    if not pops:
+        out.append(unresolved("QUERY-7", fn.qualname, key, where, "the loop does not take a node from the work-list"))
+        return out
+    n = A.unparse(pops[0].targets[0])
+    news = [s for s in w.body if isinstance(s, ast.Assign) and A.unparse(s.value) == f"{{{n}}}"]
+    good = False
+    if news:
+        NEW = A.unparse(news[0].targets[0])
+        augs = [s for s in ast.walk(w) if isinstance(s, ast.AugAssign) and A.unparse(s.target) == NEW]
+        others = [s for s in ast.walk(w) if isinstance(s, (ast.Assign, ast.AugAssign)) and s is not news[0] and s not in augs and NEW in A.names_in(s.targets[0] if isinstance(s, ast.Assign) else s.target)]
+        if len(augs) == 1 and isinstance(augs[0].op, ast.BitOr) and not others:
+            v = augs[0].value
+            pv = None
+            if isinstance(v, ast.Call) and (A.dotted(v.func) or "").endswith("reduce") and len(v.args) == 2 and A.unparse(v.args[0]) == "set.intersection":
+                comp = v.args[1]
+                if isinstance(comp, (ast.ListComp, ast.GeneratorExp)) and len(comp.generators) == 1 and not comp.generators[0].ifs:
+                    g = comp.generators[0]
+                    if A.unparse(comp.elt) == f"{D}[{A.unparse(g.target)}]":
+                        pv = g.iter
+            if isinstance(v, ast.Call) and A.unparse(v.func) == "set.intersection" and len(v.args) == 1 and isinstance(v.args[0], ast.Starred):
+                comp = v.args[0].value
+                if isinstance(comp, (ast.ListComp, ast.GeneratorExp)) and len(comp.generators) == 1 and not comp.generators[0].ifs and A.unparse(comp.elt) == f"{D}[{A.unparse(comp.generators[0].target)}]":
+                    pv = comp.generators[0].iter
+            if pv is not None:
+                src = pv
+                if isinstance(pv, ast.Name):
+                    src = _single_def_value(ctx, fn, pv) or pv
+                guard = next((a for a in A.ancestors(augs[0]) if isinstance(a, ast.If)), None)
+                if A.unparse(src) == f"{P}[{n}]" and guard is not None and A.unparse(guard.test) in (A.unparse(pv), f"len({A.unparse(pv)}) > 0") and guard in w.body:
+                    good = True
+    if good:
+        out.append(ok("QUERY-7", fn.qualname, key, ctx.where(fn, news[0]), f"{NEW} = {{{n}}}; if preds: {NEW} |= intersection of {D}[p] for p in {P}[{n}]"))
+    else:
+        out.append(bad("QUERY-7", fn.qualname, key, ctx.where(fn, w), "the update is not '{n} united with the intersection of the dominator sets of all predecessors of n'"))
+    # 4 change propagation
+    key = "a changed set is stored and the successors are re-queued"
+    chg = [s for s in w.body if isinstance(s, ast.If) and news and A.unparse(s.test) in (f"{NEW} != {D}[{n}]", f"{D}[{n}] != {NEW}")]
+    good = False
+    if len(chg) == 1 and not chg[0].orelse:
+        st = [s for s in chg[0].body if isinstance(s, ast.Assign) and A.unparse(s.targets[0]) == f"{D}[{n}]" and A.unparse(s.value) == NEW]
+        rq = [s for s in chg[0].body if isinstance(s, ast.Expr) and isinstance(s.value, ast.Call) and A.unparse(s.value.func) in (f"{W}.extend", f"{W}.update") and A.unparse(s.value.args[0]) == f"{S}[{n}]"]
+        good = bool(st and rq)
+    if good:
+        out.append(ok("QUERY-7", fn.qualname, key, ctx.where(fn, chg[0]), f"{D}[{n}] = {NEW}; {W}.extend({S}[{n}])"))
+    else:
+        out.append(bad("QUERY-7", fn.qualname, key, ctx.where(fn, w), "when the set of a node changes it is not stored, or its successors are not queued again: the result is not the fix-point"))
+    # 5 seeds are never re-evaluated: fine either way (their equation is fixed) - not an obligation
+    # ---- immediate dominators
+    im = _fn(ctx, "_imm_doms")
+    dparam = im.params[0].arg
+    key = "immediate dominators: strict dominators, minus the strict dominators of each of them; exactly one remains"
+    strict = [s for s in im.node.body if isinstance(s, ast.Assign) and isinstance(s.value, ast.DictComp)]
+    good = False
+    why = "the table of strict dominators '{k: v - {k} ...}' is not built"
+    if strict:
+        dc = strict[0].value
+        g = dc.generators[0]
+        if len(dc.generators) == 1 and not g.ifs and _strip_order(g.iter) == f"{dparam}.items()" and isinstance(g.target, ast.Tuple):
+            k, v = [A.unparse(e) for e in g.target.elts]
+            if A.unparse(dc.key) == k and A.unparse(dc.value) in (f"{v} - {{{k}}}", f"{v}.difference({{{k}}})"):
+                I = A.unparse(strict[0].targets[0])
+                subs = [s for s in ast.walk(im.node) if isinstance(s, ast.AugAssign) and isinstance(s.op, ast.Sub)]
+                unp = [s for s in ast.walk(im.node) if isinstance(s, ast.Assign) and isinstance(s.targets[0], (ast.List, ast.Tuple)) and len(s.targets[0].elts) == 1]
+                why = "the sweep does not remove, for every remaining dominator v, the strict dominators of v"
+                if len(subs) == 1:
+                    lpv = next((a for a in A.ancestors(subs[0]) if isinstance(a, ast.For)), None)
+                    lpk = next((a for a in A.ancestors(lpv) if isinstance(a, ast.For)), None) if lpv is not None else None
+                    if lpv is not None and lpk is not None and _strip_order(lpk.iter) == f"{I}.items()" and isinstance(lpk.target, ast.Tuple):
+                        vs = A.unparse(lpk.target.elts[1])
+                        x = A.unparse(lpv.target)
+                        if _strip_order(lpv.iter) == vs and A.unparse(subs[0].target) == vs and A.unparse(subs[0].value) == f"{I}[{x}]" and isinstance(lpv.iter, ast.Call):
+                            if unp and not [a for a in A.ancestors(subs[0]) if isinstance(a, ast.If)]:
+                                good = True
+                            else:
+                                why = "the result is not read as the single remaining strict dominator"
+    if good:
+        out.append(ok("QUERY-7", im.qualname, key, ctx.where(im), f"{I} = strict dominators; vs -= {I}[v] for every v in a copy of vs; [v] = vs"))
+    else:
+        out.append(bad("QUERY-7", im.qualname, key, ctx.where(im), why))
+    return out
